@@ -157,4 +157,5 @@ mod verif_standins_keygen {
 pub(crate) mod standin_access_impl {
     use super::*;
     pub fn with_sigma2(sig: &Signature, sigma2: G1Affine) -> Signature { Signature { sigma1: sig.sigma1, sigma2 } }
+    pub fn blinded_with_sigma2(b: &BlindedSignature, sigma2: G1Affine) -> BlindedSignature { BlindedSignature(Signature { sigma1: b.0.sigma1, sigma2 }) }
 }
